@@ -142,6 +142,8 @@ where
                 instrument!(follows_from: &take_fn_span, "take", take_span);
                 trace!("from sink: {message:?}");
                 if let Message::Handshake(sink) = message {
+                    #[cfg(feature = "verif")]
+                    use crate::verif::{ArcSwapOption, AtomicBool, AtomicUsize};
                     let taken = Arc::new(AtomicUsize::new(0));
                     let source_talkback: Arc<ArcSwapOption<Source<T>>> =
                         Arc::new(ArcSwapOption::from(None));
